@@ -77,6 +77,9 @@ OPS = [
     ("join", ("F",), None, True),
     ("join", ("F2",), None, False),
     ("join", ("F2",), None, True),
+    ("calc", "e", ("neg", R("a"))),
+    ("join", ("F3",), None, False),
+    ("join", ("F3",), None, True),
 ]
 
 
@@ -87,6 +90,7 @@ def world(rows):
             LeafSpec("T", "e1", ABC, tuple(rows)),
             LeafSpec("F", "e1", ("a", "d"), FIXED_ROWS),
             LeafSpec("F2", "e1", ("a", "c"), FIXED2_ROWS),
+            LeafSpec("F3", "e1", ("e", "g"), ((0, 3), (-1, 4), (-1, 5))),  # keyed on a column targets only get by calculation
         ),
     )
 
